@@ -102,6 +102,12 @@ def sc_from_Wflat(rng, fails, facts):
         ok = False
         detail = repr(e)[:200]
         if not nontrivial_perm:
+            dead = any(np.any(np.all(np.abs(W) == 0, axis=(0, 1, 2))) for W in Wflat)
+            if dead and site.leg.chinfo.qnumber > 0 and 'wrong sector' in str(e):
+                # a virtual index that no non-zero entry leads to (an operator product that vanishes, e.g. 'NN B' for
+                # Nmax=1): its charge cannot be detected from the entries; explicit error
+                facts['api.from_Wflat.undetectable_charge_refused'] = True
+                return
             if not finite and 'incompatible LegCharge' in str(e) and site.leg.chinfo.qnumber > 0:
                 # charges of the virtual legs are detected site by site from the non-zero entries; for an infinite MPO
                 # the detected last leg can differ from the first one on indices the entries do not fix: not an input
